@@ -49,6 +49,7 @@ def parse(sim):
                 elif w[3] == "to": d['to'] = unhex(w[4])
                 elif w[3] == "from": d['frm'] = unhex(w[4])
                 elif w[3] == "queue": d['queue'] = [tuple(int(x) for x in a.split(":")) for a in w[4:]]
+            elif w[0] == "I" and w[1] == "dev" and w[3] == "acts": p.devs.setdefault(int(w[2]), {})['ids'] = [(x.split(':')[0], None if int(x.split(':')[1]) == 0 else int(x.split(':')[1]) - 1000000000) for x in w[4:]]   # the harness clock starts at 1000 s
             elif w[0] == "O" and w[1] == "interest": p.interest[int(w[2])] = int(w[3])
             elif w[0] == "O" and w[1] == "polltmo": p.polltmo = int(w[2])
             elif w[0] == "O" and w[1] == "tmo": p.tmo = None if w[2] == "none" else int(w[2])
